@@ -7,6 +7,7 @@ package saml2
 // JSON-reading bodies is /verif/harness/native/zz_vh_api.go.
 
 import (
+	"crypto"
 	"time"
 
 	dsig "github.com/russellhaering/goxmldsig"
@@ -62,3 +63,9 @@ func vRandInstall()
 func vRandPos() int
 func vRandByte(i int) byte
 func vHex(b byte) string
+
+func vBytes(name string) []byte
+func vB64(b []byte) string
+func vStr(b []byte) string
+func vCtxSigner(ctx *dsig.SigningContext) crypto.Signer
+func vCtxCerts(ctx *dsig.SigningContext) [][]byte
